@@ -301,7 +301,7 @@ def _install_one_lapack(sla, fname, specs):
             return orig(*args, **kwargs)
         c.lapack[fname + '.calls'] += 1
         # M8 failpoint: default-driver SVD fails *before* touching its input
-        if fname == 'svd' and S.failpoint_svd and kwargs.get('lapack_driver', 'gesdd') == 'gesdd' and kwargs.get('overwrite_a', False):
+        if fname == 'svd' and S.failpoint_svd and kwargs.get('lapack_driver', 'gesdd') == 'gesdd':
             S.failpoint_hits += 1
             c.events['failpoint.svd_gesdd'] += 1
             raise np.linalg.LinAlgError('injected: SVD did not converge (failpoint)')
